@@ -64,7 +64,7 @@ def mk_variant(it, s, e, alt, parent, name=None):
 
 VARIANTS = [(10, 11, "T"), (10, 11, "TGG"), (10, 13, "G"), (10, 13, ""), (20, 22, "AC"), (20, 21, "ACCA"), (24, 28, "C"),
             (5, 6, "G"), (5, 8, "")]
-LOCS = [([(8, 16)], "PLUS"), ([(8, 16)], "MINUS"), ([(4, 9), (9, 15)], "PLUS"), ([(3, 9), (18, 30)], "MINUS"),
+LOCS = [([(12, 16)], "PLUS"), ([(4, 9), (12, 20)], "MINUS"), ([(8, 16)], "PLUS"), ([(8, 16)], "MINUS"), ([(4, 9), (9, 15)], "PLUS"), ([(3, 9), (18, 30)], "MINUS"),
         ([(2, 5), (14, 19), (23, 31)], "PLUS"), ([(10, 13)], "PLUS"), ([(11, 12)], "MINUS"), ([(30, 36)], "PLUS")]
 
 
@@ -189,7 +189,12 @@ def rk_lift(ctx):
     for ch in (None, (2, 37)):
         for loc in LOCS:
             for kind in ("feature", "transcript"):
-                for v in VARIANTS:
+                aligned = []
+                for bs, be in loc[0]:
+                    if be - bs >= 4:
+                        # edits flush with a block start / end: unpadded deletion, insertion-like replacement, SNV
+                        aligned += [(bs, bs + 2, ""), (be - 2, be, ""), (bs, bs + 1, "TT"), (be - 1, be, "G"), (bs, bs + 3, "A")]
+                for v in VARIANTS + aligned:
                     specs.append(((v,), ch, loc, kind))
                 for a, b in itertools.combinations(VARIANTS, 2):
                     if (a[1] <= b[0] or b[1] <= a[0]) and (kind == "feature" or ctx.thorough):
